@@ -55,7 +55,7 @@ class _MultitaskGaussianLikelihoodBase(_GaussianLikelihoodBase):
             self.register_parameter("task_noise_corr", torch.nn.Parameter(task_noise_corr))
             if task_correlation_prior is not None:
                 self.register_prior(
-                    "MultitaskErrorCorrelationPrior", task_correlation_prior, lambda m: m._eval_corr_matrix
+                    "MultitaskErrorCorrelationPrior", task_correlation_prior, lambda m: m._eval_corr_matrix()
                 )
         elif task_correlation_prior is not None:
             raise ValueError("Can only specify task_correlation_prior if rank>0")
@@ -233,7 +233,7 @@ class MultitaskGaussianLikelihood(_MultitaskGaussianLikelihoodBase):
                     parameter=torch.nn.Parameter(torch.randn(*batch_shape, num_tasks, rank)),
                 )
                 if task_prior is not None:
-                    self.register_prior("MultitaskErrorCovariancePrior", task_prior, lambda m: m._eval_covar_matrix)
+                    self.register_prior("MultitaskErrorCovariancePrior", task_prior, lambda m: m._eval_covar_matrix())
         self.num_tasks = num_tasks
         self.rank = rank
 
@@ -293,9 +293,11 @@ class MultitaskGaussianLikelihood(_MultitaskGaussianLikelihoodBase):
 
     def _eval_covar_matrix(self) -> Tensor:
         covar_factor = self.task_noise_covar_factor
-        noise = self.noise
-        D = noise * torch.eye(self.num_tasks, dtype=noise.dtype, device=noise.device)  # pyre-fixme[16]
-        return covar_factor.matmul(covar_factor.transpose(-1, -2)) + D
+        res = covar_factor.matmul(covar_factor.transpose(-1, -2))
+        if self.has_global_noise:
+            noise = self.noise  # `*batch_shape x 1`
+            res = res + noise.unsqueeze(-1) * torch.eye(self.num_tasks, dtype=noise.dtype, device=noise.device)
+        return res
 
     def marginal(
         self, function_dist: MultitaskMultivariateNormal, *args: Any, **kwargs: Any
